@@ -7,6 +7,7 @@ repairs (fixes/C20-*.diff); `encode Cfg.current` mirrors the unchanged tree and 
 the `_counterexample` theorems.  `mul`/`one` are arbitrary: `*`/`1` for values, `++`/`""` for names.
 -/
 import CobaVerif.Lemmas.C20
+import CobaVerif.Generated.C20Callers
 
 namespace Coba.C20
 
@@ -212,5 +213,120 @@ theorem crosspows_zip_counterexample :
 theorem absent_namespace_counterexample :
     encode Cfg.current [.term ['x', 'a']] [('x', .dense [.num 2])] = .error .keyError
     ∧ encodeS [.term ['x', 'a']] [('x', .dense [.num 2])] = .dense [] := by decide +kernel
+
+/-! ### Phase 2: length, distinct names, callers, floating point -/
+
+/-- the dense vector has `(1 if the constant is non-zero) + Σ_terms Π_namespaces C(n+p-1, p)` entries -/
+theorem encode_length_spec (is : List Inter) (kw : List (Char × NsVal))
+    (hne : ∀ t ∈ strTerms is, t ≠ []) (hd : isSparseCall kw = false) :
+    ∃ vs, encode Cfg.fixed is kw = .ok (.dense vs) ∧ vs.length = encodeLen is kw :=
+  encode_length_spec' is kw hne hd
+
+/-- `chooseNat` (import-free, used by `encodeLen`) is the binomial coefficient -/
+theorem encode_length_choose (n k : Nat) : chooseNat n k = Nat.choose n k := chooseNat_eq n k
+
+/- theorem encode_sparse_faithful_full: "the mapping contains every (name, product) monomial" is FALSE
+   without a hypothesis: names are built by plain concatenation, which is not injective (recorded
+   findings C20-F4/C20-F5, `sparse_key_collision_counterexample`, `feature_name_collision_counterexample`). -/
+
+/-- [partial: needs distinct names] when the concatenated names of the monomials (and `const`) are
+pairwise distinct, the mapping is exactly the list of (name, product) monomials: every participating
+combination is identified by its key and carries its product -/
+theorem encode_sparse_faithful_partial (is : List Inter) (kw : List (Char × NsVal))
+    (hne : ∀ t ∈ strTerms is, t ≠ []) (hs : isSparseCall kw = true)
+    (hk : ((termsS pairMul pairOne (featsSparse kw) (dedupFirst (strTerms is))).map (·.1)
+            ++ (if constant is ≠ 0 then ["const"] else [])).Nodup) :
+    encode Cfg.fixed is kw = .ok (.sparse (termsS pairMul pairOne (featsSparse kw) (dedupFirst (strTerms is))
+            ++ (if constant is ≠ 0 then [("const", constant is)] else []))) :=
+  encode_sparse_faithful_partial' is kw hne hs hk
+
+example : ((termsS pairMul pairOne (featsSparse [('x', .sparse [(.str "p", .num 2), (.str "q", .num 3)])])
+    (dedupFirst (strTerms [.term ['x'], .term ['x', 'x']]))).map (fun p : String × Rat => p.1) ++ []).Nodup := by decide +kernel
+
+/-- the hypothesis is necessary (C20-F4): `InteractionsEncoder(['x','xx']).encode(x={'1':2,'1x1':3})` has five
+monomials but four keys — `x1x1` is both the feature `1x1` (value 3) and the square of `1` (value 4) -/
+theorem sparse_key_collision_counterexample :
+    encode Cfg.fixed [.term ['x'], .term ['x', 'x']] [('x', .sparse [(.str "1", .num 2), (.str "1x1", .num 3)])]
+      = .ok (.sparse [("x1", 2), ("x1x1", 4), ("x1x1x1", 6), ("x1x1x1x1", 9)])
+    ∧ (termsS pairMul pairOne (featsSparse [('x', .sparse [(.str "1", .num 2), (.str "1x1", .num 3)])])
+        [['x'], ['x', 'x']]).length = 5 := by decide +kernel
+
+/-- when the prefixed names of a namespace's features are distinct none of them is merged -/
+theorem sparse_feats_distinct (c : Char) (v : NsVal) (h : (rawNames c v).Nodup) :
+    sparseFeats c v = (makeDict v).map (fun kv => (String.singleton c ++ (handleEntry kv).1.fmt, (handleEntry kv).2)) :=
+  sparseFeats_of_distinct c v h
+
+/-- … and that hypothesis is necessary too (C20-F5): `encode(x={1:2,'1':3})` keeps one feature `x1` of two -/
+theorem feature_name_collision_counterexample :
+    encode Cfg.fixed [.term ['x']] [('x', .sparse [(.int 1, .num 2), (.str "1", .num 3)])]
+      = .ok (.sparse [("x1", 3)]) := by decide +kernel
+
+/-- translator obligation: the default term lists found in linucb.py, lints.py, synthetics.py and
+offline.py (re-extracted on every run), as given and as rewritten for an empty context / no context or
+action features, name only `x`/`a` and contain no empty term — the hypotheses of `encode_eq_spec` -/
+theorem callers_wellformed :
+    wellformedTerms (learnerTerms true Coba.Generated.C20.linucbFeatures) = true
+    ∧ wellformedTerms (learnerTerms false Coba.Generated.C20.linucbFeatures) = true
+    ∧ wellformedTerms (learnerTerms true Coba.Generated.C20.lintsFeatures) = true
+    ∧ wellformedTerms (learnerTerms false Coba.Generated.C20.lintsFeatures) = true
+    ∧ wellformedTerms (syntheticTerms 1 1 Coba.Generated.C20.syntheticFeatures) = true
+    ∧ wellformedTerms (syntheticTerms 0 1 Coba.Generated.C20.syntheticFeatures) = true
+    ∧ wellformedTerms (syntheticTerms 1 0 Coba.Generated.C20.syntheticFeatures) = true
+    ∧ wellformedTerms Coba.Generated.C20.offlineFeatures = true := by decide +kernel
+
+/-- for EVERY `features` argument the term list the learners build for an empty context has no empty term -/
+theorem learner_terms_nonempty (fs : List Inter) : ∀ t ∈ strTerms (learnerTerms false fs), t ≠ [] :=
+  learner_terms_nonempty' fs
+
+/-- for EVERY `reward_features` argument and feature counts the synthetic simulation's term list has no empty term -/
+theorem synthetic_terms_nonempty (nCtx nAct : Nat) (fs : List (List Char)) :
+    ∀ t ∈ strTerms (syntheticTerms nCtx nAct fs), t ≠ [] := synthetic_terms_nonempty' nCtx nAct fs
+
+/-- hence those calls always return the specification, whatever context / action is passed -/
+theorem learner_encode_eq_spec (fs : List Inter) (kw : List (Char × NsVal)) :
+    encode Cfg.fixed (learnerTerms false fs) kw = .ok (encodeS (learnerTerms false fs) kw) :=
+  learner_encode_eq_spec' fs kw
+
+theorem synthetic_encode_eq_spec (nCtx nAct : Nat) (fs : List (List Char)) (kw : List (Char × NsVal)) :
+    encode Cfg.fixed (syntheticTerms nCtx nAct fs) kw = .ok (encodeS (syntheticTerms nCtx nAct fs) kw) :=
+  synthetic_encode_eq_spec' nCtx nAct fs kw
+
+/-- and a well-formed list (e.g. every default, by `callers_wellformed`) does so as given -/
+theorem wellformed_encode_eq_spec (is : List Inter) (kw : List (Char × NsVal)) (h : wellformedTerms is = true) :
+    encode Cfg.fixed is kw = .ok (encodeS is kw) := wellformed_encode_eq_spec' is kw h
+
+/-- the encoder with ANY multiplication of values (exact or rounding) is the specification with that multiplication -/
+theorem encode_any_mul_eq_spec (vmul : Rat → Rat → Rat) (is : List Inter) (kw : List (Char × NsVal))
+    (hne : ∀ t ∈ strTerms is, t ≠ []) : encodeG vmul Cfg.fixed is kw = .ok (encodeSG vmul is kw) :=
+  encodeG_eq_spec vmul is kw hne
+
+/-- floating point, standard model (dense): if every multiplication returns the exact product times `1+ε`,
+`|ε| ≤ u ≤ 1`, and `·1` is exact, then — for all such multiplications — every entry of the computed vector
+equals the exact monomial up to `d-1` roundings, `d` = the largest term degree -/
+theorem encode_float_model {u : Rat} {fmul : Rat → Rat → Rat} (hf : FloatMul u fmul) (h0 : 0 ≤ u) (h1 : u ≤ 1)
+    (is : List Inter) (kw : List (Char × NsVal))
+    (hne : ∀ t ∈ strTerms is, t ≠ []) (hd : isSparseCall kw = false) :
+    ∃ vs vs' : List Rat,
+      encodeG fmul Cfg.fixed is kw = .ok (.dense ((if constant is ≠ 0 then [constant is] else []) ++ vs)) ∧
+      encode Cfg.fixed is kw = .ok (.dense ((if constant is ≠ 0 then [constant is] else []) ++ vs')) ∧
+      List.Forall₂ (Approx u (maxDeg is - 1)) vs vs' :=
+  encode_float_model' hf h0 h1 is kw hne hd
+
+/-- … (sparse): the same names, and every value up to `d-1` roundings -/
+theorem encode_float_model_sparse {u : Rat} {fmul : Rat → Rat → Rat} (hf : FloatMul u fmul) (h0 : 0 ≤ u) (h1 : u ≤ 1)
+    (is : List Inter) (kw : List (Char × NsVal))
+    (hne : ∀ t ∈ strTerms is, t ≠ []) (hs : isSparseCall kw = true) :
+    ∃ kvs kvs' : List (String × Rat),
+      encodeG fmul Cfg.fixed is kw = .ok (.sparse kvs) ∧ encode Cfg.fixed is kw = .ok (.sparse kvs') ∧
+      List.Forall₂ (PairRel (Approx u (maxDeg is - 1))) kvs kvs' :=
+  encode_float_model_sparse' hf h0 h1 is kw hne hs
+
+/-- `m` roundings mean a relative error of at most `(1+u)^m - 1` (what the harness checks with `u = 2^-53`) -/
+theorem float_model_rel_error {u : Rat} (h0 : 0 ≤ u) (h1 : u ≤ 1) {m : Nat} {x y : Rat} (h : Approx u m x y) :
+    |x - y| ≤ ((1 + u) ^ m - 1) * |y| := approx_abs h0 h1 h
+
+/-- the hypotheses are satisfiable: exact multiplication is a `FloatMul` for every `u ≥ 0`, and `u = 2^-53` qualifies -/
+example : FloatMul (1 / 2 ^ 53) ratMul ∧ (0 : Rat) ≤ 1 / 2 ^ 53 ∧ (1 : Rat) / 2 ^ 53 ≤ 1 :=
+  ⟨floatMul_exact _ (by norm_num), u53_ok.1, u53_ok.2⟩
 
 end Coba.C20
